@@ -208,8 +208,17 @@ class Engine:
             plan = [("cvc5", 5)] + plan
         for k, (seed, to) in enumerate(plan):
             if seed == "cvc5":
-                out, vals = self._cvc5(assertions, to, want_model)
+                out, vals = self._cvc5(assertions, to, True)
                 self.stats["cvc5"] += 1
+                if out == "sat" and vals is not None:
+                    # never trust a cvc5 model blindly: every assertion must evaluate to true (or be undecidable by
+                    # evaluation, e.g. because of an uninterpreted function) under it
+                    vm = ValModel(vals)
+                    if any(vm.says(a) is False for a in assertions):
+                        self.stats["cvc5_bad_model"] = self.stats.get("cvc5_bad_model", 0) + 1
+                        out, vals = "unknown", None
+                elif out == "sat":
+                    out = "unknown"     # sat without a usable model is not used
                 if out == "unsat":
                     r, m = "unsat", None
                     self.cvc5_streak += 1
@@ -595,7 +604,7 @@ class Engine:
         return self.check_holds(cond, label)
 
     # ---------------------------------------------------------------- exploration
-    def explore(self, fn, stop_on_cex=True, prefix=None, frontier_depth=None, slice_s=None):
+    def explore(self, fn, stop_on_cex=True, prefix=None, frontier_depth=None, slice_s=None, on_cex=None):
         """slice_s: after that many seconds the job stops at the next path end and hands the unexplored subtrees back
         (as decision prefixes in self.frontier), so that the pool can balance long-tailed jobs."""
         t_start = time.time()
@@ -605,6 +614,7 @@ class Engine:
         self.frontier_depth = frontier_depth
         self.known_seen = set()
         self.inputs = {}
+        self._cex_seen = 0
         while True:
             self.pc = []
             self.decided = {}
@@ -629,7 +639,10 @@ class Engine:
                 self.frontier.append([t[0] for t in self.trail])
             self.stats["paths"] += 1
             if self.cex and stop_on_cex:
-                break
+                # on_cex(list of new counterexamples) -> True: confirmed (stop); False: not confirmed, keep exploring
+                if on_cex is None or on_cex(self.cex[self._cex_seen:]):
+                    break
+                self._cex_seen = len(self.cex)
             while len(self.trail) > nprefix and not self.trail[-1][1]:
                 self.trail.pop()
             if len(self.trail) <= nprefix:
